@@ -27,7 +27,7 @@ func ruleR28() *Rule {
 	return &Rule{
 		ID:    "R28",
 		Title: "TERM-ACCUMULATORS: per-term accumulators reused across terms are reset after each term is written",
-		Props: []string{"C01", "C06"},
+		Props: []string{"C01", "C06", "C09", "C13"},
 		Floor: floorFor("R28"),
 		Run: func(c *RuleCtx) {
 			p := c.p
